@@ -12,6 +12,7 @@ import (
 	"sort"
 	"strconv"
 	"strings"
+	"time"
 )
 
 // PropInfo is the static description of what a property's rules decide.
@@ -23,6 +24,8 @@ type PropInfo struct {
 	Rules       func(r *Run)
 	Thorough    func(r *Run) // extra work in the thorough tier (optional)
 }
+
+var procStart = time.Now()
 
 var registry = map[string]PropInfo{}
 
